@@ -104,6 +104,7 @@ var zzDurations = []struct {
 // fixed allocation is strategy TTL with a parsable, non-negative duration that
 // has elapsed since the pod was last seen - whatever the order and mix of the
 // allocations.  While the pod exists only the last-seen stamp is refreshed.
+// zz:noreplay time.Now is a symbolic clock under the engine; the native wall clock cannot be set to the counterexample's instant
 func ZZ_C11_gc_cr_podenis() {
 	n := zz.Fork("allocations", 2+zz.Tier()) + 1
 	nDur := 3 + 3*zz.Tier() // quick: {10m, -5m, junk}; thorough adds {0s, "", 48h}
